@@ -98,32 +98,32 @@ func (e *parEngine) findRunners() {
 				if callee == nil || callee.Blocks == nil {
 					continue
 				}
-				args := g.Common().Args
-				for ai, a := range args {
-					prm, ok := a.(*ssa.Parameter)
-					if !ok {
+				// the function values the goroutine calls, traced back to the spawner: a
+				// parameter of the spawner handed over as an argument, captured by the
+				// started closure, or put into a field of a struct the goroutine is given
+				// (as an argument, as the receiver of the started method, or captured)
+				for _, call := range core.Calls(callee) {
+					com := call.Common()
+					if com.IsInvoke() || com.StaticCallee() != nil {
 						continue
 					}
-					if _, isFunc := prm.Type().Underlying().(*types.Signature); !isFunc {
+					if _, isFunc := com.Value.Type().Underlying().(*types.Signature); !isFunc {
 						continue
 					}
-					// does callee call its parameter ai?
-					if ai >= len(callee.Params) {
-						continue
-					}
-					cp := callee.Params[ai]
-					called := false
-					for _, r := range *cp.Referrers() {
-						if c, ok := r.(ssa.CallInstruction); ok && c.Common().Value == cp {
-							called = true
-						}
-					}
-					if !called {
-						continue
-					}
-					for pi, fp := range fn.Params {
-						if fp == prm {
-							e.runners[fn] = pi
+					for _, sv := range parSpawnerValues(g, callee, com.Value, 0) {
+						for _, o := range core.Origins(sv, false) {
+							prm, ok := o.(*ssa.Parameter)
+							if !ok || prm.Parent() != fn {
+								continue
+							}
+							if _, isFunc := prm.Type().Underlying().(*types.Signature); !isFunc {
+								continue
+							}
+							for pi, fp := range fn.Params {
+								if fp == prm {
+									e.runners[fn] = pi
+								}
+							}
 						}
 					}
 				}
@@ -883,4 +883,145 @@ func (f *parFamily) concurrent(r1, r2 *parRegion) bool {
 		return false
 	}
 	return core.Reachable(r1.spawn, r2.spawn, isWait) || core.Reachable(r2.spawn, r1.spawn, isWait)
+}
+
+// ---------------------------------------------------------------------------
+// values of a started function seen from its spawner
+
+// parSpawnerValues maps a value v of the function started by g (callee: the
+// static operand of the go statement, a function, a method or a closure) to
+// the values of the spawner it stands for: an argument for a parameter (the
+// receiver is argument 0), the captured cell's contents for a free variable,
+// and, for the load of a field of a struct that is itself such a value, what
+// the spawner stored into that field of the struct it built.
+func parSpawnerValues(g *ssa.Go, callee *ssa.Function, v ssa.Value, depth int) []ssa.Value {
+	if depth > 4 {
+		return nil
+	}
+	com := g.Common()
+	switch x := v.(type) {
+	case *ssa.Parameter:
+		for i, p := range callee.Params {
+			if p == x && i < len(com.Args) {
+				return []ssa.Value{com.Args[i]}
+			}
+		}
+	case *ssa.FreeVar:
+		// the address of the captured variable
+		if mc, ok := com.Value.(*ssa.MakeClosure); ok {
+			for i, fv := range callee.FreeVars {
+				if fv == x && i < len(mc.Bindings) {
+					return []ssa.Value{mc.Bindings[i]}
+				}
+			}
+		}
+	case *ssa.ChangeType:
+		return parSpawnerValues(g, callee, x.X, depth+1)
+	case *ssa.Field:
+		var out []ssa.Value
+		for _, al := range parSpawnerStructs(g, callee, x.X, depth+1) {
+			out = append(out, parFieldStores(al, x.Field)...)
+		}
+		return out
+	case *ssa.UnOp:
+		if x.Op != token.MUL {
+			return nil
+		}
+		switch a := x.X.(type) {
+		case *ssa.FreeVar:
+			var out []ssa.Value
+			for _, cell := range parSpawnerValues(g, callee, a, depth+1) {
+				if vals, complete := core.StoresTo(cell); complete {
+					out = append(out, vals...)
+				} else {
+					out = append(out, parWholeLoad(cell)...)
+				}
+			}
+			return out
+		case *ssa.FieldAddr:
+			var out []ssa.Value
+			for _, al := range parSpawnerStructs(g, callee, a.X, depth+1) {
+				out = append(out, parFieldStores(al, a.Field)...)
+			}
+			return out
+		}
+	}
+	return nil
+}
+
+// parWholeLoad: a load of the whole cell in the cell's own function (stands for "the struct in this cell").
+func parWholeLoad(cell ssa.Value) []ssa.Value {
+	al, ok := cell.(*ssa.Alloc)
+	if !ok || al.Referrers() == nil {
+		return nil
+	}
+	for _, r := range *al.Referrers() {
+		if u, ok := r.(*ssa.UnOp); ok && u.Op == token.MUL {
+			return []ssa.Value{u}
+		}
+	}
+	return nil
+}
+
+// parSpawnerStructs: the struct cells of the spawner that v — a struct, or a
+// pointer to one, in the started function — stands for.
+func parSpawnerStructs(g *ssa.Go, callee *ssa.Function, v ssa.Value, depth int) []*ssa.Alloc {
+	if depth > 4 {
+		return nil
+	}
+	var out []*ssa.Alloc
+	add := func(sv ssa.Value) {
+		for _, o := range core.Origins(sv, false) {
+			switch y := o.(type) {
+			case *ssa.Alloc:
+				out = append(out, y)
+			case *ssa.UnOp:
+				if al, ok := y.X.(*ssa.Alloc); ok && y.Op == token.MUL {
+					out = append(out, al)
+				}
+			}
+		}
+	}
+	if al, ok := v.(*ssa.Alloc); ok && al.Parent() == callee {
+		// a local copy (a by-value receiver or parameter whose address is taken): what was stored into it whole
+		if al.Referrers() != nil {
+			for _, r := range *al.Referrers() {
+				if st, ok := r.(*ssa.Store); ok && st.Addr == al {
+					out = append(out, parSpawnerStructs(g, callee, st.Val, depth+1)...)
+				}
+			}
+		}
+		return out
+	}
+	if fv, ok := v.(*ssa.FreeVar); ok {
+		// the captured variable is the struct itself
+		for _, cell := range parSpawnerValues(g, callee, fv, depth+1) {
+			add(cell)
+		}
+		return out
+	}
+	for _, sv := range parSpawnerValues(g, callee, v, depth+1) {
+		add(sv)
+	}
+	return out
+}
+
+// parFieldStores: the values the owner of the struct cell al stores into its field #field.
+func parFieldStores(al *ssa.Alloc, field int) []ssa.Value {
+	var out []ssa.Value
+	if al.Referrers() == nil {
+		return nil
+	}
+	for _, r := range *al.Referrers() {
+		fa, ok := r.(*ssa.FieldAddr)
+		if !ok || fa.Field != field || fa.Referrers() == nil {
+			continue
+		}
+		for _, rr := range *fa.Referrers() {
+			if st, ok := rr.(*ssa.Store); ok && st.Addr == fa {
+				out = append(out, st.Val)
+			}
+		}
+	}
+	return out
 }
